@@ -23,8 +23,8 @@ Values are decimal uint64.  `D(x)` = digest of x computed from the raw represent
   adv64 i m -> v|end (state after AdvanceIfNeeded) | many64 i n -> "k D" | drain64 i n -> "k D" | seq64 x fwd|rev n -> "k D"
   ser64 x        -> len(ToBytes) GetSerializedSizeInBytes n(WriteTo) writeto==tobytes marshal==tobytes base64==tobytes
   hex64 x        -> hex of ToBytes | toobig           (checked by the Lean reading of the format specification)
-  rd64 y <entry> x [extra=<k>] [reuse]  -> D(y) n|- len consumed|- wf       entry: readfrom|readfrom1|fromunsafe|unmarshal|base64
-                                           (readfrom1 = ReadFrom through a one-byte-per-Read reader)
+  rd64 y <entry> x [extra=<k>] [reuse]  -> D(y) n|- len consumed|- wf       entry: readfrom|readfrom1|readpipe|fromunsafe|unmarshal|base64
+                                           (readfrom1 = ReadFrom through a one-byte-per-Read reader, readpipe = through the read end of an OS pipe)
   bufchk64 y                            -> ok | modified@<off>   (the buffer given to FromUnsafeBytes for y is untouched)
   reit64 i x                            -> ok          (Initialize the existing iterator object i on bitmap x)
   dec64 y <entry> <hex> [reuse]         -> ok n|- <wf> <dump> | err | panic:.. | fatal:..   (y defined iff ok and wf=ok)
@@ -835,7 +835,7 @@ def py_stream(buckets, count=None):
     return out
 
 
-ENTRIES = ["readfrom", "fromunsafe", "unmarshal", "base64", "readfrom1"]
+ENTRIES = ["readfrom", "fromunsafe", "unmarshal", "base64", "readfrom1", "readpipe"]
 
 
 def suite_ser(g, scale):
@@ -935,6 +935,23 @@ def suite_ser(g, scale):
         g.emit("rd64 %s %s %s" % (g.fresh("d"), entry, x))
         g.emit("trunc64 %s %s" % (x, entry))
     g.count("ser64:widebucket")
+    # 1e. run-optimised bitmaps whose buckets serialize to VERY few bytes each (one chunk holding one run: 19 bytes per bucket, less than
+    #     any bucket of array / bitmap chunks), alone, by the hundred, and next to an ordinary bucket
+    for nb, extra in ((1, False), (200, False), (50, True), (3, True)):
+        x = g.fresh("m")
+        g.emit("new64 %s" % x)
+        for j in range(nb):
+            b = (j * 3 + 1) << 32
+            g.emit("addr64 %s %d %d" % (x, b + 100 * j, b + 100 * j + 4 + (j % 5)))
+        if extra:
+            g.emit("addmany64 %s %s" % (x, " ".join(str((1 << 40) + 7 * i) for i in range(30))))
+        g.emit("opt64 %s" % x)
+        g.emit("ser64 %s" % x)
+        for entry in ENTRIES:
+            y = g.fresh("d")
+            g.emit("rd64 %s %s %s" % (y, entry, x))
+            g.emit("eq64 %s %s" % (y, x))
+        g.count("ser64:tiny-run-buckets")
     # 2. small streams: spec reading of the bytes, truncation sweep, header corruption
     for _ in range(int(10 * scale)):
         x = g.fresh("s")
